@@ -2,10 +2,10 @@
 # usage: tools/run_all.sh <quick|thorough> [lanes] [timeout-per-check-seconds]   -- runs every check of MANIFEST.json, <lanes> at a time,
 # each with its share of the cores; prints one line per check (exit code, VIOLATION lines, last line of output); logs in /var/tmp/runall-<tier>/.
 T=${1:-quick}; L=${2:-2}; TMO=${3:-7200}
-D=/var/tmp/runall-$T; mkdir -p $D; rm -f $D/*.log $D/summary.txt
+D=/var/tmp/runall-$T${TAG:-}; mkdir -p $D; rm -f $D/*.log $D/summary.txt
 J=${LANEJOBS:-$(( $(nproc) / L ))}; [ $J -lt 2 ] && J=2
 cd /verif
 ls specs >/dev/null
-for p in C16 C19 C11 C12 C18 C07 C06 C05 C17 C20 C14 C01 C02 C13 C15 C10 C09 C08 C04 C03; do echo $p; done |
+for p in ${LIST:-C16 C19 C11 C12 C18 C07 C06 C05 C17 C20 C14 C01 C02 C13 C15 C10 C09 C08 C04 C03}; do echo $p; done |
  xargs -P $L -I{} sh -c "s=\$(date +%s); VERIF_JOBS=$J timeout $TMO bin/vcheck run {} --tier $T > $D/{}.log 2>&1; rc=\$?; echo \"{} $T rc=\$rc secs=\$(( \$(date +%s) - s )) viol=\$(grep -c '^VIOLATION' $D/{}.log) \$(tail -1 $D/{}.log | cut -c1-150)\" >> $D/summary.txt"
 sort $D/summary.txt
